@@ -82,6 +82,8 @@ BAR_SHAPES = [
     [("N", 7), ("C", 8), ("N", 7)],
     [("C", 1), ("N", 0), ("C", 7), ("R", 1), ("C", 0)],
     [("N", 3), ("N", 3), ("N", 3), ("N", 0), ("N", 3), ("R", 3), ("N", 3), ("N", 0), ("N", 4), ("N", 0), ("N", 4)],
+    # length denominators (in quarter notes) 4, 3, 5, 3, 16: a coarser, non-dividing subdivision after a finer one
+    [("N", 1), ("N", 3), ("N", 4), ("C", 3), ("R", 7)],
 ]
 # value tables per shape slot: (value, base, dots, ratio)
 SLOT = [
